@@ -21,6 +21,9 @@ pub enum POp {
     SetBoard(Root),
     Legal(u8, u16),
     Illegal(u8, u8, u8),
+    /// a near miss derived from the legal moves (promotion without a piece, ordinary move
+    /// with a piece, castling targets without the right, en-passant square without marker)
+    NearMiss(u16),
     /// a reversible manoeuvre a b a^-1 b^-1 repeated `r` times; the index selects it
     Shuffle(u8, u16),
     Board,
@@ -232,6 +235,24 @@ fn run_case(c: &PluginCase, st: &mut Stats) -> Result<(), String> {
                         nt = true;
                     }
                 }
+                POp::NearMiss(idx) => {
+                    if !explicit_set {
+                        e.set_board(Board::standard());
+                        m.set(Pos::start());
+                        explicit_set = true;
+                    }
+                    let l = m.pos.legal();
+                    let near = crate::play::illegal_triples(&m.pos, &l, &mut Expand(*idx as u64), 0);
+                    if near.is_empty() {
+                        continue;
+                    }
+                    let mv = near[(*idx as usize * near.len()) >> 16];
+                    flagged |= play(e, &mut m, mv, &mut trace, st)?;
+                    if legal_played > 0 {
+                        nt = true;
+                    }
+                    st.class("near-miss move offered");
+                }
                 POp::Shuffle(r, sel) => {
                     if !explicit_set {
                         e.set_board(Board::standard());
@@ -307,6 +328,7 @@ fn strategy() -> impl Strategy<Value = PluginCase> {
         1 => root_strategy(20).prop_map(POp::SetBoard),
         8 => (prop_oneof![5 => Just(0u8), 3 => 1u8..9], any::<u16>()).prop_map(|(b, i)| POp::Legal(b, i)),
         2 => (any::<u8>(), any::<u8>(), any::<u8>()).prop_map(|(a, b, c)| POp::Illegal(a, b, c)),
+        3 => any::<u16>().prop_map(POp::NearMiss),
         4 => (1u8..6, any::<u16>()).prop_map(|(r, s)| POp::Shuffle(r, s)),
         1 => Just(POp::Board),
         1 => prop_oneof![Just(0u16), 1u16..200, 200u16..3000].prop_map(POp::Evaluate),
@@ -343,7 +365,7 @@ pub const C15: CheckDef = CheckDef {
     id: "C15",
     worker,
     replay,
-    rule: "system under test: libchess_bot.so built from the working tree, loaded through chess_api::ChessApiRef::load_from_file, a fresh new_engine() per case, driven only through chess_api::ChessEngine. case = op list over {set_board(generated position), legal move (biased classes), arbitrary (from,to,promotion) triple, reversible manoeuvre a b a^-1 b^-1 repeated r <= 5 times, board(), evaluate(limit k)}; a directed family repeats a knight shuffle for > 1000 plies (> 255 repetitions). Oracle: reference position + HashMap<position key, count> cleared by set_board: make_move valid iff reference-legal; invalid leaves board() unchanged and raises no flag; valid makes board() equal the reference successor (text, ==, hash) and raises the flag iff the new key's count becomes exactly 3; evaluate returns None or a reference-legal move. Whether the set position itself counts as the first occurrence is calibrated at the start of every run with a 12-ply knight shuffle (flag at ply 8 -> counts; at ply 12 -> does not) and the reading in force is recorded in samples; a plugin that fits neither reading is a violation. Non-trivial = some key reaches count >= 3, or an illegal move is offered after >= 1 legal move; distinct by move trace.",
+    rule: "system under test: libchess_bot.so built from the working tree, loaded through chess_api::ChessApiRef::load_from_file, a fresh new_engine() per case, driven only through chess_api::ChessEngine. case = op list over {set_board(generated position), legal move (biased classes), arbitrary (from,to,promotion) triple, near miss of a legal move (promotion without piece, ordinary move with a piece, castling target without the right, en-passant square without marker), reversible manoeuvre a b a^-1 b^-1 repeated r <= 5 times, board(), evaluate(limit k)}; a directed family repeats a knight shuffle for > 1000 plies (> 255 repetitions). Oracle: reference position + HashMap<position key, count> cleared by set_board: make_move valid iff reference-legal; invalid leaves board() unchanged and raises no flag; valid makes board() equal the reference successor (text, ==, hash) and raises the flag iff the new key's count becomes exactly 3; evaluate returns None or a reference-legal move. Whether the set position itself counts as the first occurrence is calibrated at the start of every run with a 12-ply knight shuffle (flag at ply 8 -> counts; at ply 12 -> does not) and the reading in force is recorded in samples; a plugin that fits neither reading is a violation. Non-trivial = some key reaches count >= 3, or an illegal move is offered after >= 1 legal move; distinct by move trace.",
     assumptions: &[
         "position identity = placement, side to move, castling rights, en-passant file (as the property states)",
         "the occurrence-counting reading is calibrated, not assumed (DESIGN.md C15)",
